@@ -17,7 +17,10 @@ Proj(a) == [o \in Objs |-> <<a.objs[o].final, a.objs[o].prot, a.objs[o].vouched>
 ReachSet(style) == {[o \in Objs |-> <<x[o][1], x[o][2], x[o][3]>>] : x \in ToSet(Doc.reach[style])}
 \* a crash inside a copy can leave a partial file only under a temporary name; at a final path the model knows
 \* "none", "empty" (the reflink probe) and "ok"
-Dev == IF "F7" \in KnownDev /\ R.style = "add" /\ \E o \in Objs : R.crash.objs[o].final = "empty" THEN {"F7"} ELSE {}
+\* F7 is about file objects (the reflink probe is only made between two local paths); a directory object is copied
+\* from the in-memory staging area and is never empty at its final path
+Dev == IF "F7" \in KnownDev /\ R.style = "add" /\ (\E o \in {"f1", "f2"} : R.crash.objs[o].final = "empty")
+          /\ R.crash.objs["d1"].final # "empty" THEN {"F7"} ELSE {}
 Say(tag, clause, d) == PrintT(<<tag, "C15", clause, i, 0, d>>)
 Good(a, o) == a.objs[o].final = "ok"
 Judge ==
